@@ -18,7 +18,7 @@ LEVEL = "exploration"
 RULE = ("Hypothesis composite history: start database (19 shipped databases, file or string), 0-5 steps of {load another database | "
         "run a shipped example | run a generated input that changes KNOBS/PRINT/SELECTED_OUTPUT/USER_PUNCH/USER_PRINT/RATES/"
         "CALCULATE_VALUES/PUT/TRANSPORT/ADVECTION/INCREMENTAL_REACTIONS/isotopes/PITZER/LLNL parameters/new species/entities | "
-        "setter call (global switches, file names, per-number switches, current number, AccumulateLine, AddError/AddWarning)}, at most one "
+        "setter call (global switches, file names, per-number switches, current number, AccumulateLine, AddError/AddWarning, SetBasicCallback/SetBasicFortranCallback with a host function of shim_c07.cpp)}, at most one "
         "failing call (input error, abort in the middle of a calculation, convergence failure, missing input file, failed load), then "
         "LoadDatabase/LoadDatabaseString returning 0, then 0-3 setter calls and 1-5 follow-ups (probe battery written from the member "
         "groups of Phreeqc::init, generated inputs, RunAccumulated). Non-trivial = the history holds a database of another family, an "
@@ -53,6 +53,22 @@ HIST_NUMS = [1, 2, 3, 5, 10]
 # databases without an Alkalinity master species: INVERSE_MODELING dereferences a null master_alk there (SIGSEGV on the
 # unchanged tree, reported as a side finding for C08) -> no inverse block / probe with these
 NO_ALK = ["ColdChem.dat", "ex15.dat", "minimum.dat"]
+
+
+_cb_bound = []
+
+
+def cb_lib():
+    """prototypes of shim/shim_c07.cpp (host BASIC callbacks defined in the shim)"""
+    L = lib.lib()
+    if not _cb_bound:
+        import ctypes
+        L.c07_set_basic_callback.argtypes = [ctypes.c_int, ctypes.c_int]
+        L.c07_set_basic_callback.restype = ctypes.c_int
+        L.c07_callback_calls.argtypes = []
+        L.c07_callback_calls.restype = ctypes.c_long
+        _cb_bound.append(1)
+    return L
 
 
 def prepare(tier):
@@ -401,7 +417,10 @@ def load_step(draw, db=None):
 
 
 def setter_step(draw):
-    k = draw(st.integers(0, 9))
+    k = draw(st.integers(0, 10))
+    if k == 10:
+        # SetBasicCallback / SetBasicFortranCallback with a host function of the shim (0 = unregister)
+        return {"op": "callback", "mode": draw(st.sampled_from([1, 1, 2, 3, 0])), "tags": ["callback"]}
     if k <= 2:
         return {"op": "seti", "fn": "Set" + draw(st.sampled_from(GLOBAL_SW)), "v": draw(st.integers(0, 1))}
     if k == 3:
@@ -599,6 +618,9 @@ def do_step(I, step, wd, k):
     if op == "cur":
         I.set_current(step["n"])
         return None
+    if op == "callback":
+        cb_lib().c07_set_basic_callback(I.id, step["mode"])
+        return None
     if op == "acc":
         for l in step["lines"]:
             I.accumulate(l)
@@ -629,9 +651,9 @@ def table_key(tb):
     return [tb.rows, tb.cols, [[repr(c) for c in row] for row in tb.cells]]
 
 
-def snapshot(I, wd, rc):
+def snapshot(I, wd, rc, calls0=0):
     iid = I.id
-    o = {"return_code": rc}
+    o = {"return_code": rc, "callback_calls": cb_lib().c07_callback_calls() - calls0}
     o["output_string"] = mask_text(I.output(), iid)
     o["log_string"] = mask_text(I.log(), iid)
     o["dump_string"] = mask_text(I.dump(), iid)
@@ -675,7 +697,7 @@ def clean_dir(wd):
     os.makedirs(wd, exist_ok=True)
 
 
-ORDER = ["return_code", "error_string", "warning_string", "selected_output_state", "components", "surviving_switches",
+ORDER = ["return_code", "callback_calls", "error_string", "warning_string", "selected_output_state", "components", "surviving_switches",
          "surviving_names", "dump_string", "log_string", "output_string", "line_counts", "files"]
 
 
@@ -763,6 +785,7 @@ def check_case(case, ctx):
     os.chdir(wdh)
     H = lib.Inst()
     R = None
+    calls_h = cb_lib().c07_callback_calls()
     try:
         k = 0
         for s in steps:
@@ -792,13 +815,13 @@ def check_case(case, ctx):
         for root, dirs, fs in os.walk(wdh):
             for f in fs:
                 os.unlink(os.path.join(root, f))
-        hs = [snapshot(H, wdh, rc)]
+        hs = [snapshot(H, wdh, rc, calls_h)]
         # A follow-up that fails ends the battery: what an instance does after a failed run is C08's subject (on the pinned tree a
         # failed run can make the next one crash, also on a brand-new instance).
         post = []
         for j, s in enumerate(case["post"]):
             rc = do_step(H, s, wdh, 100 + j)
-            hs.append(snapshot(H, wdh, rc))
+            hs.append(snapshot(H, wdh, rc, calls_h))
             post.append(s)
             if rc is not None and rc != 0:
                 break
@@ -830,6 +853,7 @@ def check_case(case, ctx):
         clean_dir(wdr)
         os.chdir(wdr)
         R = lib.Inst()
+        calls_r = cb_lib().c07_callback_calls()
         for g in GLOBAL_SW:
             if sw[g] != GLOBAL_SW_DEFAULT[g]:
                 R.seti("Set" + g, sw[g])
@@ -847,11 +871,11 @@ def check_case(case, ctx):
         for root, dirs, fs in os.walk(wdr):
             for f in fs:
                 os.unlink(os.path.join(root, f))
-        rs = [snapshot(R, wdr, rc)]
+        rs = [snapshot(R, wdr, rc, calls_r)]
         compare(hs[0], rs[0], "right after the load")
         for j, s in enumerate(post):
             rc = do_step(R, s, wdr, 100 + j)
-            rs.append(snapshot(R, wdr, rc))
+            rs.append(snapshot(R, wdr, rc, calls_r))
             compare(hs[j + 1], rs[j + 1], "after follow-up call %d (%s)" % (j, s.get("src") or s.get("fn") or s["op"]))
     finally:
         os.chdir(sd)
